@@ -153,10 +153,18 @@ def run(ctx):
               key="module set after success", node=f, rel="global_ctx.py")
     # relative import resolution vs importlib.util.resolve_name
     scen = [
-        ("modules.pkg.sub", "modules/pkg/sub/__init__", True), ("modules.pkg", "modules/pkg/__init__", True),
-        ("apps.app1", "apps/app1/__init__", True), ("apps.app1.sub", "apps/app1/sub/__init__", True),
+        # (context name, rel_import_path, is package, file path)
+        ("modules.pkg.sub", "modules/pkg/sub/__init__", True, "/cfg/pyscript/modules/pkg/sub/__init__.py"),
+        ("modules.pkg", "modules/pkg/__init__", True, "/cfg/pyscript/modules/pkg/__init__.py"),
+        ("apps.app1", "apps/app1/__init__", True, "/cfg/pyscript/apps/app1/__init__.py"),
+        ("apps.app1.sub", "apps/app1/sub/__init__", True, "/cfg/pyscript/apps/app1/sub/__init__.py"),
+        # packages and plain modules as loaded by module_import itself (rel_import_path is the package directory)
+        ("modules.pkg", "modules/pkg", True, "/cfg/pyscript/modules/pkg/__init__.py"),
+        ("modules.pkg.helper", "modules/pkg", False, "/cfg/pyscript/modules/pkg/helper.py"),
+        ("modules.pkg.sub.leaf", "modules/pkg/sub", False, "/cfg/pyscript/modules/pkg/sub/leaf.py"),
+        ("apps.app1.util", "apps/app1", False, "/cfg/pyscript/apps/app1/util.py"),
     ]
-    for ctx_name, relpath, is_pkg in scen:
+    for ctx_name, relpath, is_pkg, file_path in scen:
         for level in (1, 2):
             for mod in ("sib", "sib.deep"):
                 package = ctx_name if is_pkg else ctx_name.rsplit(".", 1)[0]
@@ -168,7 +176,7 @@ def run(ctx):
                     exp = None
                 if exp is not None and "." not in exp.rsplit("." + mod, 1)[0]:
                     exp = None  # would leave the modules/ or apps/ root: pyscript refuses (ImportError)
-                got = _resolve(program, ctx_name, relpath, mod, level)
+                got = _resolve(program, ctx_name, relpath, mod, level, file_path)
                 ok = (exp is None and got == "ImportError") or (exp is not None and got != "ImportError" and set(got) == {exp})
                 ctx.check(ok, "R11.3", uid, f"relative import level {level} of {mod} from {ctx_name}",
                           msg=f"module_import: `from {'.' * level}{mod} import ...` inside {ctx_name} looks up context name(s) {got}; Python resolves it to {exp}: "
@@ -219,7 +227,7 @@ def run(ctx):
     )
 
 
-def _resolve(program, ctx_name, relpath, module_name, level):
+def _resolve(program, ctx_name, relpath, module_name, level, file_path=None):
     """Concrete abstract evaluation of module_import's candidate context names for a relative import."""
     uid = "global_ctx.py::GlobalContext.module_import"
     looked = []
@@ -232,7 +240,7 @@ def _resolve(program, ctx_name, relpath, module_name, level):
                      summaries={"self.manager.get": mget, "Function.hass.config.path": lambda i, n, a, k, c, o: [(c, Const("/cfg/pyscript"))],
                                 "Function.hass.async_add_executor_job": lambda i, n, a, k, c, o: [(c, Const(None))]})
     heap = {"self.rel_import_path": Const(relpath), "self.name": Const(ctx_name), "self.manager": Sym(("mgr",)), "self.imports": ListV((), "set"),
-            "self.auto_start": Const(False)}
+            "self.auto_start": Const(False), "self.file_path": Const(file_path)}
     out = run_flow(program, uid, pol, args={"self": ObjV("self", "GlobalContext"), "module_name": Const(module_name), "import_level": Const(level)}, heap=heap)
     if out.get("raise") and not out.get("return"):
         excs = {getattr(c.env.get("$exc"), "cls", "?") for c in out.get("raise")}
